@@ -6,6 +6,7 @@
   import breaks this file.  Parameters are identified by position ($0 = baseFilePath,
   $1 = rawUrlPath), so renaming them does not.
 -/
+import Glb.Generated.StatusFsutil
 import Glb.Generated.Fsutil
 import Glb.Model.PathClean
 
@@ -56,5 +57,8 @@ theorem forceSlash_uses_extracted (url : Bytes) :
 /-- the model's return expression is the extracted call chain applied to ($0, forced $1) -/
 theorem resolveUrlPath_shape (base url : Bytes) :
     resolveUrlPath base url = join [base, fromSlash (clean (forceSlash url))] := rfl
+
+/-- the extractor of this area recognised the source as it is on this run (a refusal removes `ok`) -/
+theorem extractor_ok : Glb.Generated.StatusFsutil.ok = () := rfl
 
 end Glb.Tie.Fsutil
